@@ -67,8 +67,8 @@ def need_sep(a, b):
 # ------------------------------------------------------------------------------------------
 NEAR = ["inout2", "Listing", "int_", "_", "voidx", "Stringy", "oneway_", "In", "Out", "interfaces", "constant", "trueish",
         "Foo", "Bar", "x", "y1", "a_b", "CharSequence2", "Mapper", "imports", "enum_", "parcelableX", "floaty", "doubles"]
-VALUES = [["1"], ["0"], ["42"], ["-.5f", "FLOAT"], ["1f", "FLOAT"], ["+3", "FLOAT"], ["-7", "FLOAT"], ["1.5", "FLOAT"],
-          ['"s"'], ['""'], ['"a b/*c*/"'], ["true"], ["false"]]
+VALUES = [["1"], ["0"], ["42"], ["007"], ["0010"], ["000"], ["09"], ["-.5f", "FLOAT"], ["1f", "FLOAT"], ["+3", "FLOAT"], ["-7", "FLOAT"], ["1.5", "FLOAT"],
+          ['"s"'], ['""'], ['"a b/*c*/"'], ['"C:\\"'], ['"a\\nb"'], ['"// no comment"'], ["true"], ["false"]]
 ANN_NAMES = ["@A", "@nullable", "@utf8InCpp", "@VintfStability", "@Backing", "@B2"]
 
 
@@ -184,7 +184,7 @@ class RichGen:
                         toks.append(T(","))
                 toks.append(T(")"))
                 if r.random() < 0.4:
-                    toks += [T("="), T(r.choice(["0", "1", "7", "007", "4294967295", "16777215"]), "INTEGER")]
+                    toks += [T("="), T(r.choice(["0", "1", "7", "007", "010", "0017", "09", "0080", "00", "4294967295", "16777215"]), "INTEGER")]
                 toks.append(T(";"))
             toks.append(T("}"))
         elif kind == "parcelable":
@@ -217,7 +217,7 @@ class RichGen:
 # ------------------------------------------------------------------------------------------
 WS_SIMPLE = [" ", "  ", "\n", "\t", "\r\n", " \n  ", "\n\n"]
 WS_UNICODE = ["\u00a0", "\u3000", "\u2028", "\u0085", "\u2002", "\x0b", "\x0c", "\r", " \u3000\n", "\u2029"]
-COMMENT_WORDS = ["c", "note", "todo x", "caf\u00e9", "\u4e2d\u4e2d", "\U0001F600 ok", "a = b;", "e\u0301\u0301 x"]
+COMMENT_WORDS = ["c", "note", "todo x", "String old(int a); gone", "was { x } before", "a;b", "} else {", "caf\u00e9", "\u4e2d\u4e2d", "\U0001F600 ok", "a = b;", "e\u0301\u0301 x"]
 COMMENT_WORDS_WILD = ["/* not nested", "* star", "// slashes", "a / b * c", "\"quote", "@ann", "x *", "x **", "*** banner **",
                       "* x ***", "**"]
 
@@ -309,9 +309,11 @@ def layout(toks, rng, mode="mixed", docs=0.0, unicode_ws=True, wild_comments=Fal
         if docs and rng.random() < docs and (i == 0 or toks[i - 1][1] in (";", "{", "}", ",", "(")):
             out.append(doc_piece(rng, nl))
             out.append(piece("WS", rng.choice([" ", nl, nl + "    ", "\t", nl + "\t", " \t "])))
-            if rng.random() < 0.25:
-                out.append(piece("BCOM", "/* plain */") if rng.random() < 0.5 else piece("LCOM", "// plain" + nl))
-                out.append(piece("WS", rng.choice([" ", nl])))
+            # ordinary comments between the doc comment and its construct (C18's alphabet: no '/' and no '*' inside)
+            for _c in range(rng.choice([0, 0, 0, 1, 1, 2])):
+                w = rng.choice([x for x in COMMENT_WORDS if "/" not in x and "*" not in x])
+                out.append(piece("BCOM", "/* " + w + " */") if rng.random() < 0.5 else piece("LCOM", "// " + w + nl))
+                out.append(piece("WS", rng.choice([" ", nl, "\t"])))
         out.append([k, t] if plain(t) else piece(k, t))
         if i + 1 == n:
             break
